@@ -1436,6 +1436,14 @@ class Interp:
                     if self.ctx.branch(n == 0, 'slice bound is -0'):
                         return SV(PTLs.mk('ptnil'), 'plist')
                     return SV(spec.ptl_dropn(o.t, n), 'plist')
+                if lo is not None and hi is not None and isinstance(hi, int) and hi == -1:
+                    # s[-(n+1):-1]: the n elements below the last one (fewer when the list is shorter)
+                    n1 = z3.simplify(-self.as_int(lo) - 1)
+                    if self.ctx.branch(n1 < 0, 'negative slice length'):
+                        raise Unsupported('slice of a symbolic list')
+                    if self.ctx.branch(PTLs.is_('ptnil', o.t), 'empty list'):
+                        return SV(PTLs.mk('ptnil'), 'plist')
+                    return SV(spec.ptl_lastn(PTLs.get('ptcons', 'pttl', o.t), n1), 'plist')
                 raise Unsupported('slice of a symbolic list')
             if isinstance(o, (list, tuple, str)) and not isinstance(lo, SV) and not isinstance(hi, SV):
                 return o[lo:hi]
@@ -1634,6 +1642,27 @@ class Interp:
             raise Unsupported('super() outside method')
 
     def e_ListComp(self, e, env, module, fn):
+        cc = self.comp_contracts.get((getattr(fn, 'qualname', '?'), self.comp_ordinal(fn, e)))
+        if cc is not None and hasattr(cc, 'arbitrary_iteration') and len(e.generators) == 1 and not e.generators[0].ifs:
+            # a comprehension under contract: [elt for x in it]  ==  acc = []; for x in it: acc.append(elt)
+            g = e.generators[0]
+            it = self.eval(g.iter, env, module, fn)
+            cc.entry(self, self.ctx, env, it)
+            which = self.ctx.choose(3, 'comprehension: arbitrary element / all elements produced / stops early')
+            if which == 0:
+                x = cc.arbitrary_iteration(self, self.ctx, env, it)
+                self.ctx.check_feasible()
+                en = Env(env)
+                self.assign(g.target, x, en, module, fn)
+                v = self.eval(e.elt, en, module, fn)
+                cc.after_element(self, self.ctx, env, it, v)
+                raise _LoopDone()
+            if which == 1:
+                r = cc.exit_value(self, self.ctx, env, it)
+                self.ctx.check_feasible()
+                return r
+            cc.early_stop(self, self.ctx, env, it)       # raises (SymRaise) or declares the case infeasible
+            raise Infeasible()
         if len(e.generators) == 1 and not e.generators[0].ifs and isinstance(e.generators[0].target, ast.Name):
             g = e.generators[0]
             it = self.eval(g.iter, env, module, fn)
@@ -2187,6 +2216,9 @@ def _b_tuple(it, args, kw):
 
 
 def _b_list(it, args, kw):
+    if args and isinstance(args[0], _LazyZip) and not args[0].listed:
+        K, W = _force_zip(it, args[0])
+        return _LazyZip(SV(K, 'intlist'), SV(W, 'plist_rev'), True, listed=True)
     if args and isinstance(args[0], SV) and args[0].kind in ('str', 'intlist', 'plist'):
         return args[0]
     if args and isinstance(args[0], _MapView) and args[0].which == 'values' and ctor_of(it.ctx.nz(args[0].m.t)) is None:
@@ -2204,6 +2236,14 @@ def _b_set(it, args, kw):
 
 
 def _b_dict(it, args, kw):
+    if args and isinstance(args[0], _LazyZip) and args[0].listed and not kw:
+        z = args[0]
+        if not z.rev:
+            raise Unsupported('dict(list(zip(...))) without the reversal')
+        from .speclemmas import pmz, il_distinct
+        # python dicts keep the FIRST position of a repeated key and its LAST value: the association-list model below is exact only for distinct keys
+        it.ctx.oblige('model:the keys zipped into the dict are pairwise distinct (needed by the dict model)', il_distinct(z.keys.t), kind='callpre')
+        return SV(pmz(z.keys.t, z.values.t), 'pmap')
     d = {}
     if args:
         src = args[0]
@@ -2303,6 +2343,8 @@ class _SymRange:
 
 def _b_reversed(it, args, kw):
     v = args[0]
+    if isinstance(v, _LazyZip) and v.listed:
+        return _LazyZip(v.keys, v.values, True, listed=True, rev=not v.rev)
     if isinstance(v, _MapView) and v.which == 'keys' and ctor_of(it.ctx.nz(v.m.t)) is None:
         return SV(spec.pm_keys_rev(v.m.t), 'idl')
     if isinstance(v, SV) and v.kind == 'plist':
@@ -2323,7 +2365,56 @@ def _b_pow(it, args, kw):
     raise Unsupported('pow with symbolic arguments')
 
 
+class _LazyMap:
+    def __init__(self, f, seq):
+        self.f, self.seq = f, seq
+
+
+class _LazyZip:
+    def __init__(self, keys, values, strict, listed=False, rev=False):
+        self.keys, self.values, self.strict, self.listed, self.rev = keys, values, strict, listed, rev
+
+
+def _b_map(it, args, kw):
+    if len(args) == 2 and isinstance(args[1], SV) and args[1].kind in ('plist', 'plist_rev'):
+        return _LazyMap(args[0], args[1])
+    if len(args) == 2:
+        return [it.call(args[0], [x], {}) for x in it.iterate(args[1])]
+    raise Unsupported('map with several iterables')
+
+
+def _is_type_assert_identity(f):
+    """def f(p): assert isinstance(p, Pattern); return p"""
+    n = getattr(f, 'node', None)
+    if not isinstance(n, ast.FunctionDef) or len(n.args.args) != 1 or len(n.body) != 2:
+        return False
+    a, r = n.body
+    p = n.args.args[0].arg
+    return (isinstance(a, ast.Assert) and isinstance(a.test, ast.Call) and isinstance(a.test.func, ast.Name) and a.test.func.id == 'isinstance' and len(a.test.args) == 2
+            and isinstance(a.test.args[0], ast.Name) and a.test.args[0].id == p and isinstance(a.test.args[1], ast.Name) and a.test.args[1].id == 'Pattern'
+            and isinstance(r, ast.Return) and isinstance(r.value, ast.Name) and r.value.id == p)
+
+
+def _force_zip(it, z):
+    """consume zip(keys, map(f, reversed(segment)), strict=True): f's assertions, then the length check"""
+    K, mp = z.keys, z.values
+    if not (isinstance(K, SV) and K.kind in ('intlist', 'idl') and isinstance(mp, _LazyMap) and mp.seq.kind == 'plist_rev' and z.strict):
+        raise Unsupported('zip of symbolic sequences of this shape')
+    if not _is_type_assert_identity(mp.f):
+        raise Unsupported('map with a function that is not a type-asserting identity')
+    W = mp.seq.t
+    # elements are produced pairwise: a Proved among the first min(|K|,|W|) elements raises AssertionError before the length mismatch is noticed;
+    # both are errors, the contracts here only distinguish 'raises' from 'returns'
+    if not it.ctx.branch(spec.tl_allpat(spec.ex_stack(W)), 'every plug is a Pattern'):
+        raise SymRaise('AssertionError', '', 'assert_is_pattern')
+    if not it.ctx.branch(spec.il_len(K.t) == spec.ptl_len(W), 'as many plugs as keys'):
+        raise SymRaise('ValueError', 'zip() argument lengths differ')
+    return K.t, W
+
+
 def _b_zip(it, args, kw):
+    if len(args) == 2 and (isinstance(args[1], _LazyMap) or (isinstance(args[0], SV) and args[0].kind in ('intlist', 'idl'))):
+        return _LazyZip(args[0], args[1], bool(kw.get('strict')))
     seqs = [it.iterate(a) for a in args]
     if kw.get('strict') and len({len(s) for s in seqs}) > 1:
         raise SymRaise('ValueError')
@@ -2428,7 +2519,7 @@ def _b_id(name):
 BUILTINS = {n: Builtin(n, f) for n, f in {
     'isinstance': _b_isinstance, 'len': _b_len, 'tuple': _b_tuple, 'list': _b_list, 'set': _b_set, 'dict': _b_dict,
     'enumerate': _b_enumerate, 'sorted': _b_sorted, 'vars': _b_vars, 'any': _b_any, 'all': _b_all, 'range': _b_range,
-    'reversed': _b_reversed, 'zip': _b_zip, 'str': _b_str, 'repr': _b_str, 'max': _b_max, 'print': _b_print, 'type': _b_type,
+    'reversed': _b_reversed, 'zip': _b_zip, 'map': _b_map, 'str': _b_str, 'repr': _b_str, 'max': _b_max, 'print': _b_print, 'type': _b_type,
     'frozenset': _b_set, 'pow': _b_pow, 'bytes': _b_bytes, 'sum': _b_sum,
 }.items()}
 for _n in ('int', 'bool', 'bytes', 'min', 'sum', 'map', 'open', 'hash', 'id', 'getattr', 'setattr', 'hasattr', 'iter', 'next'):
